@@ -336,6 +336,14 @@ func (e *SpecEnv) ident(n *ast.Ident) (SV, types.Type) {
 	if b, ok := e.vars[n.Name]; ok {
 		return b.v, b.t
 	}
+	if c.og != nil {
+		if l, ok := c.og.locals[n.Name]; ok {
+			if v, ok := e.st.cells[l.key]; ok {
+				return v, l.Type
+			}
+			return c.zeroValue(l.Type), l.Type
+		}
+	}
 	if e.fr != nil {
 		if a, ok := e.fr.named[n.Name]; ok {
 			if v, t, ok := e.localVar(a); ok {
@@ -1085,17 +1093,26 @@ func (e *SpecEnv) coerceArg(v SV, t types.Type, want types.Type) SV {
 }
 
 func (e *SpecEnv) applyPred(pd *PredDef, args []ast.Expr) (SV, types.Type) {
-	c := e.c
 	if len(args) != len(pd.Params) {
 		e.fail("%s expects %d arguments", pd.Name, len(pd.Params))
 	}
+	var evald []bound
+	for _, a := range args {
+		v, t := e.eval(a)
+		evald = append(evald, bound{v, t})
+	}
+	return e.applyPredVals(pd, evald)
+}
+
+func (e *SpecEnv) applyPredVals(pd *PredDef, evald []bound) (SV, types.Type) {
+	c := e.c
 	ppkg := c.eng.typesPkg(pd.Pkg)
 	if ppkg == nil {
 		ppkg = e.pkg
 	}
 	var vals []bound
-	for i, a := range args {
-		v, t := e.eval(a)
+	for i, ev := range evald {
+		v, t := ev.v, ev.t
 		pt := c.eng.specType(ppkg, pd.Params[i].Type)
 		if k, ok := v.(Kv); ok {
 			s := c.specSort(pt)
